@@ -134,7 +134,7 @@ def random_collection(rng, valid=None):
         t.build_index()
         if rng.random() < 0.4 and len(t.edges) > 1:
             permute_index_ties(t, rng)
-    if rng.random() < 0.15 and len(t.edges):
+    if valid is None and rng.random() < 0.15 and len(t.edges):
         # a stale index: built, then the edge table changed without re-indexing (has_index() is False from here on)
         t.build_index() if make_invalid is False else None
         if t.has_index():
